@@ -88,12 +88,12 @@ func (v *Val) canon(sb *strings.Builder) {
 	case KDouble:
 		fmt.Fprintf(sb, "double(%016x)", v.U)
 	case KString:
-		fmt.Fprintf(sb, "str(%q)", v.B)
+		writeBytes(sb, "str", v.B)
 	case KBinary:
 		if v.Nil {
 			sb.WriteString("bin(nil)")
 		} else {
-			fmt.Fprintf(sb, "bin(%q)", v.B)
+			writeBytes(sb, "bin", v.B)
 		}
 	case KList, KSet:
 		if v.Nil {
@@ -140,6 +140,18 @@ func (v *Val) canon(sb *strings.Builder) {
 	default:
 		panic(fmt.Sprintf("bad kind %d", v.K))
 	}
+}
+
+// writeBytes renders byte content unambiguously: short printable content
+// quoted, anything else as length-prefixed raw bytes (cheap for long strings).
+func writeBytes(sb *strings.Builder, tag string, b []byte) {
+	if len(b) <= 16 {
+		fmt.Fprintf(sb, "%s(%q)", tag, b)
+		return
+	}
+	fmt.Fprintf(sb, "%s#%d(", tag, len(b))
+	sb.Write(b)
+	sb.WriteString(")")
 }
 
 // Short renders Canon truncated for messages.
